@@ -52,33 +52,83 @@ def _own_nodes(fn):
             todo.append(c)
 
 
-def _candidates(fn, spec):
+def single_use_temps(fn):
+    """{name: value node} for locals that are bound exactly once (plain assignment from a call, attribute or subscript expression)
+    and read exactly once: explaining variables.  Binding shapes are compared with these inlined, so that introducing or
+    removing such a temporary does not change what another local is recognised by."""
+    stores, loads, values = {}, {}, {}
+    for n in ast.walk(fn):
+        if isinstance(n, ast.Name):
+            d = stores if isinstance(n.ctx, ast.Store) else loads if isinstance(n.ctx, ast.Load) else None
+            if d is not None:
+                d[n.id] = d.get(n.id, 0) + 1
+    for n in _own_nodes(fn):
+        if isinstance(n, ast.Assign) and len(n.targets) == 1 and isinstance(n.targets[0], ast.Name) \
+                and isinstance(n.value, (ast.Call, ast.Attribute, ast.Subscript)):
+            values[n.targets[0].id] = n.value
+        elif isinstance(n, ast.AnnAssign) and isinstance(n.target, ast.Name) and isinstance(n.value, (ast.Call, ast.Attribute, ast.Subscript)):
+            values[n.target.id] = n.value
+    params = {a.arg for a in fn.args.args + fn.args.kwonlyargs + fn.args.posonlyargs}
+    return {k: v for k, v in values.items() if stores.get(k) == 1 and loads.get(k) == 1 and k not in params}
+
+
+class _Inline(ast.NodeTransformer):
+    def __init__(self, temps, depth=0):
+        self.temps, self.depth = temps, depth
+
+    def visit_Name(self, node):
+        if isinstance(node.ctx, ast.Load) and node.id in self.temps and self.depth < 4:
+            return _Inline(self.temps, self.depth + 1).visit(copy.deepcopy(self.temps[node.id]))
+        return node
+
+
+class _CanonExpr(ast.NodeTransformer):
+    """a > b -> b < a, a >= b -> b <= a (one spelling per comparison, so that a shape does not depend on it)."""
+    def visit_Compare(self, node):
+        self.generic_visit(node)
+        if len(node.ops) == 1 and isinstance(node.ops[0], (ast.Gt, ast.GtE)):
+            op = ast.Lt() if isinstance(node.ops[0], ast.Gt) else ast.LtE()
+            return ast.copy_location(ast.Compare(node.comparators[0], [op], [node.left]), node)
+        return node
+
+
+def bound_text(node, temps):
+    """Source text of a bound expression with single-use temporaries inlined and comparisons in one orientation."""
+    node = copy.deepcopy(node)
+    if temps:
+        node = _Inline(temps).visit(node)
+    return ast.unparse(_CanonExpr().visit(node))
+
+
+def _candidates(fn, spec, temps=None):
     kind, pat, k = ("assign", spec, None) if isinstance(spec, str) else (spec + (None,))[:3]
     rx = re.compile(pat)
     found = []
+    temps = temps if temps is not None else single_use_temps(fn)
+    _u = lambda node: bound_text(node, temps)
     for n in _own_nodes(fn):
         if kind == "assign":
-            if isinstance(n, ast.Assign) and len(n.targets) == 1 and isinstance(n.targets[0], ast.Name) and rx.search(ast.unparse(n.value)):
+            if isinstance(n, ast.Assign) and len(n.targets) == 1 and isinstance(n.targets[0], ast.Name) and rx.search(_u(n.value)):
                 found.append(n.targets[0].id)
-            elif isinstance(n, ast.AnnAssign) and isinstance(n.target, ast.Name) and n.value is not None and rx.search(ast.unparse(n.value)):
+            elif isinstance(n, ast.AnnAssign) and isinstance(n.target, ast.Name) and n.value is not None and rx.search(_u(n.value)):
                 found.append(n.target.id)
-            elif isinstance(n, ast.NamedExpr) and rx.search(ast.unparse(n.value)):
+            elif isinstance(n, ast.NamedExpr) and rx.search(_u(n.value)):
                 found.append(n.target.id)
         elif kind == "unpack":
-            if isinstance(n, ast.Assign) and len(n.targets) == 1 and isinstance(n.targets[0], (ast.Tuple, ast.List)) and rx.search(ast.unparse(n.value)):
+            if isinstance(n, ast.Assign) and len(n.targets) == 1 and isinstance(n.targets[0], (ast.Tuple, ast.List)) and rx.search(_u(n.value)):
                 el = _flatten(n.targets[0])
                 if k is not None and k < len(el) and isinstance(el[k], ast.Name):
                     found.append(el[k].id)
         elif kind == "for":
-            if isinstance(n, ast.For) and rx.search(ast.unparse(n.iter)):
+            if isinstance(n, ast.For) and rx.search(_u(n.iter)):
                 el = _flatten(n.target)
                 kk = 0 if k is None else k
                 if (k is not None or len(el) == 1) and kk < len(el) and isinstance(el[kk], ast.Name):
                     found.append(el[kk].id)
         elif kind == "nth":
-            if isinstance(n, ast.Assign) and len(n.targets) == 1 and isinstance(n.targets[0], ast.Name) and rx.search(ast.unparse(n.value)):
+            if isinstance(n, ast.Assign) and len(n.targets) == 1 and isinstance(n.targets[0], ast.Name) and rx.search(_u(n.value)):
                 found.append((n.lineno, n.col_offset, n.targets[0].id))
-            elif isinstance(n, ast.AnnAssign) and isinstance(n.target, ast.Name) and n.value is not None and rx.search(ast.unparse(n.value)):
+            elif isinstance(n, ast.AnnAssign) and isinstance(n.target, ast.Name) and n.value is not None and rx.search(_u(n.value)):
                 found.append((n.lineno, n.col_offset, n.target.id))
         elif kind == "value_of":
             # the local that is stored under a matching target:  slab_dict["frac_pos"] = pos
@@ -87,7 +137,7 @@ def _candidates(fn, spec):
         elif kind == "with":
             if isinstance(n, ast.With):
                 for it in n.items:
-                    if it.optional_vars is not None and isinstance(it.optional_vars, ast.Name) and rx.search(ast.unparse(it.context_expr)):
+                    if it.optional_vars is not None and isinstance(it.optional_vars, ast.Name) and rx.search(_u(it.context_expr)):
                         found.append(it.optional_vars.id)
         elif kind == "aug":
             if isinstance(n, ast.AugAssign) and isinstance(n.target, ast.Name):
@@ -168,13 +218,14 @@ def resolve(fn, roles, safe=None):
     """{canonical: actual} for the roles that identify exactly one local of fn."""
     out = {}
     bound = {n.id for n in ast.walk(fn) if isinstance(n, ast.Name) and isinstance(n.ctx, ast.Store)}
+    temps = single_use_temps(fn)
     for canon, spec in roles.items():
         if canon in bound:
             out[canon] = canon      # the source still uses the canonical name: nothing to identify
             continue
         alts = spec if isinstance(spec, list) else [spec]
         for alt in alts:
-            c = set(_candidates(fn, alt))
+            c = set(_candidates(fn, alt, temps))
             if canon in c:
                 c = {canon}
             if len(c) == 1:
